@@ -286,9 +286,13 @@ def simplify_pw(interp, g: Grid) -> Grid:
     """a 1-D grid whose piecewise element has a single applicable piece on the whole extent -> plain element"""
     if isinstance(g, Grid) and g.ndim == 1 and len(g.dims[0]) == 1 and _is_pw(g.elem):
         segs = segments(interp, g)
+        ax = g.dims[0][0][0]
         if segs is not None and len(segs) == 1 and segs[0][0].is_zero() and segs[0][1] == g.dims[0][0][1]:
-            ax = g.dims[0][0][0]
             return Grid(g.dims, segs[0][2](Poly.atom(ax)))
+        if segs is not None and g.elem.kw["idx"].p != Poly.atom(ax):
+            # shifted selector: re-base the pieces on the axis index
+            a = Poly.atom(ax)
+            return Grid(g.dims, Term("piecewise", [TupleV([Num(st), Num(ln), fn(a - st)]) for st, ln, fn in segs], {"idx": Num(a)}))
     return g
 
 
@@ -1109,6 +1113,13 @@ def call_ext(interp, dotted: str, args: List[V], kwargs: Dict[str, V], node, cc)
             gs.append(gp)
         r = cat(interp, gs)
         return r if r is not None else Term("concatenate", [seq])
+    if d == "numpy.diff" and len(args) == 1 and not kwargs:
+        x = args[0] if isinstance(args[0], Grid) else to_grid(interp, args[0])
+        if isinstance(x, Grid) and x.ndim == 1:
+            hi = grid_subscript(interp, x, Term("slice", [Num(1), Const(None), Const(None)]), node)
+            lo = grid_subscript(interp, x, Term("slice", [Const(None), Num(-1), Const(None)]), node)
+            return interp.binop(ast.Sub(), hi, lo, node)
+        return Term("diff", args)
     if d == "numpy.sort":
         return Term("sort", args, kwargs)
     if d == "numpy.unique":
